@@ -10,20 +10,24 @@ open CimbaModel.HashHeap (HTag Item Order HH)
 def cmdMask : Cmd → Mask
   | .stop _ _ | .exit _ => mEnd
   | .prioSet _ _ => mPools
-  | .acquire _ | .preempt _ | .release _ => mResHeld
-  | .poolAcquire _ _ | .poolPreempt _ _ | .poolRelease _ _ => mPoolsHeld
-  | .bufGet _ _ | .bufPut _ _ => mBufs
-  | .oqGet _ | .oqPut _ _ => mOqs
-  | .pqGet _ | .pqPut _ _ _ _ | .pqCancel _ _ | .pqReprio _ _ _ => mPqs
+  | .acquire _ | .preempt _ => mResHeldB
+  | .release _ => mResHeld
+  | .poolAcquire _ _ | .poolPreempt _ _ => mPoolsHeldB
+  | .poolRelease _ _ => mPoolsHeld
+  | .bufGet _ _ | .bufPut _ _ => mBufsB
+  | .oqGet _ | .oqPut _ _ => mOqsB
+  | .pqGet _ | .pqPut _ _ _ _ => mPqsB
+  | .pqCancel _ _ | .pqReprio _ _ _ => mPqs
   | .recStart kind _ | .recStop kind _ => recMask kind
+  | .hold _ | .yield | .waitProc _ | .waitEvent _ | .condWait _ _ _ _ => mBlocked
   | _ => {}
 
 def frameMask : Frame → Mask
-  | .acquire _ => mResHeld
-  | .pool _ _ _ _ => mPoolsHeld
-  | .bufGet _ _ _ | .bufPut _ _ _ => mBufs
-  | .oqGet _ | .oqPut _ _ => mOqs
-  | .pqGet _ | .pqPut _ _ _ _ => mPqs
+  | .acquire _ => mResHeldB
+  | .pool _ _ _ _ => mPoolsHeldB
+  | .bufGet _ _ _ | .bufPut _ _ _ => mBufsB
+  | .oqGet _ | .oqPut _ _ => mOqsB
+  | .pqGet _ | .pqPut _ _ _ _ => mPqsB
   | _ => {}
 
 theorem timeOk_reprioritize {q q' : EvQ} {h : Nat} {p : Int} (hs : reprioritize q h p = .ok q') :
@@ -43,7 +47,8 @@ theorem prioSet_fp (w : World) (p q : Pid) (v : Int) : Fp mPools w (execCmd w p 
   split
   · exact Fp.refl _ _
   · dsimp only
-    refine Fp.trans (Fp.trans (Same.fp _ (modProc_same w q _ ?_)) (foldl_fp _ _ ?_ _ _)) (foldl_fp _ _ ?_ _ _)
+    refine Fp.trans (Fp.trans (Same.fp _ (modProc_same w q _ ?_ ?_)) (foldl_fp _ _ ?_ _ _)) (foldl_fp _ _ ?_ _ _)
+    · intro _; rfl
     · intro _; rfl
     · intro w a
       cases a with
@@ -54,7 +59,7 @@ theorem prioSet_fp (w : World) (p q : Pid) (v : Int) : Fp mPools w (execCmd w p 
         | ok ev' =>
           have := timeOk_reprioritize hr
           dsimp only
-          refine ⟨fun _ => rfl, fun _ => rfl, fun _ => rfl, fun _ => rfl, fun _ => rfl, this.1, this.2, rfl, fun _ _ => rfl⟩
+          refine ⟨fun _ => rfl, fun _ => rfl, fun _ => rfl, fun _ => rfl, fun _ => rfl, this.1, this.2, rfl, fun _ _ => rfl, fun _ _ => rfl⟩
       | guard g => fp_auto
       | proc _ => exact Fp.refl _ _
       | event _ => exact Fp.refl _ _
